@@ -19,6 +19,11 @@ else:
     _alt = os.path.join(os.environ.get('VERIF_ALT_ROOT', '/tmp/verif-alt'), _h.sha1(REPO.encode()).hexdigest()[:10])
     DRIVER = os.path.join(_alt, 'driver')
     TARGET = os.path.join(_alt, 'target')
+# Coverage mode (tools/coverage.py): every driver is built by the nightly toolchain with
+# -Cinstrument-coverage into its own target directory; evidence, replays and logs go there too.
+COV = os.environ.get('VERIF_COV')
+if COV:
+    TARGET = os.path.join(os.path.abspath(COV), 'target')
 BIN = os.path.join(TARGET, 'bin')
 
 
@@ -97,8 +102,10 @@ def build_one(cfg, profile='rel', quiet=True):
     env['CARGO_NET_OFFLINE'] = 'true'
     rf = GUARD + ' ' + BACKENDS[be]
     cmd = ['cargo']
-    if be in NIGHTLY or profile == 'asan':
+    if be in NIGHTLY or profile == 'asan' or COV:
         cmd.append('+nightly')
+    if COV:
+        rf += ' -Cinstrument-coverage'
     cmd += ['build', '--offline', '--target-dir', tdir]
     outdir = 'release'
     if profile == 'rel':
@@ -153,7 +160,7 @@ def ensure(builds, verbose=True):
 
     for c, p in builds:
         be = parse_cfg(c)[0]
-        if be in NIGHTLY or p == 'asan':
+        if be in NIGHTLY or p == 'asan' or COV:
             if have_nightly is None:
                 have_nightly = nightly_ok()
             if not have_nightly:
